@@ -7,7 +7,7 @@ import os, subprocess, sys, tempfile, shutil, argparse, concurrent.futures as cf
 
 ENV = dict(os.environ, GOFLAGS='-mod=mod', GOPROXY='off', GOSUMDB='off', GOTOOLCHAIN='local')
 ENV.pop('GOWORK', None)
-TRANSFORMS = 'rename invert swapeq negform demorgan parens constextract hoistcond guard2else switch2if retlocal varform reorder splitinit mergeinit hoistarg ret2else splitand lencmp incr boolret predfunc rangeidx elsenest swapand kvorder caseorder renamefile extractblock countloop'.split()
+TRANSFORMS = 'rename invert swapeq negform demorgan parens constextract hoistcond guard2else switch2if retlocal varform reorder splitinit mergeinit hoistarg ret2else splitand lencmp incr boolret predfunc rangeidx elsenest swapand kvorder caseorder renamefile extractblock countloop flag2counter labelcontinue joinvar'.split()
 
 def run(job):
     name, patch, prop, neutral, K, S = job
